@@ -1,4 +1,336 @@
+/-
+C20 — file helpers agree with whole-file semantics and are idempotent.
+
+Property theorems over OsloModel/File.lean.  Helper lemmas are `lemma_…`.
+Every theorem quantifies over all contents (`Bytes = List UInt8`), all chunk
+sizes, all hashes `(σ, upd, fin, init)` obeying the streaming law, all `n`,
+all outcomes of the OS call (success / any exception with any errno) and both
+answers of `os.path.isdir`.
+-/
 import OsloModel.File
 namespace Oslo.File
-theorem placeholder_partial : True := trivial
+
+deriving instance DecidableEq for Except      -- only used by the concrete `example`s
+
+/-! ### the hash is a parameter: what "law-abiding" means -/
+
+/-- `h.update(a); h.update(b)` is `h.update(a + b)`, and `h.update(b'')` changes nothing -/
+structure Lawful {σ : Type} (upd : σ → Bytes → σ) : Prop where
+  append : ∀ s a b, upd (upd s a) b = upd s (a ++ b)
+  empty : ∀ s, upd s [] = s
+
+/-- non-vacuity: the driver's rolling hash obeys the law … -/
+theorem toy_lawful : Lawful toyUpdate :=
+  ⟨fun s a b => by simp [toyUpdate, List.foldl_append], fun s => rfl⟩
+
+/-- … and is not a constant: it sees content, order and length -/
+example : toyUpdate toyInit [1, 2] ≠ toyUpdate toyInit [2, 1] ∧
+    toyUpdate toyInit [0] ≠ toyUpdate toyInit [0, 0] ∧
+    toyUpdate toyInit [1, 2, 3] = ⟨2000015000031, 3⟩ := by decide
+
+/-! ### the chunk loop -/
+
+/-- lengths of the chunks a file of `size` bytes is read in with chunk size `cs`:
+    `size / cs` full chunks, then the remainder if there is one -/
+def lensSpec (cs size : Nat) : List Nat :=
+  List.replicate (size / cs) cs ++ (if size % cs = 0 then [] else [size % cs])
+
+theorem lemma_lensSpec_step (cs size : Nat) (hcs : 1 ≤ cs) (hs : 1 ≤ size) :
+    lensSpec cs size = min cs size :: lensSpec cs (size - cs) := by
+  by_cases h : cs ≤ size
+  · have h1 : size / cs = (size - cs) / cs + 1 := Nat.div_eq_sub_div (by omega) h
+    have h2 : size % cs = (size - cs) % cs := Nat.mod_eq_sub_mod h
+    simp [lensSpec, h1, h2, List.replicate_succ, Nat.min_eq_left h]
+  · have h1 : size / cs = 0 := Nat.div_eq_of_lt (by omega)
+    have h2 : size % cs = size := Nat.mod_eq_of_lt (by omega)
+    have h3 : size - cs = 0 := by omega
+    have h4 : min cs size = size := by omega
+    have h5 : size ≠ 0 := by omega
+    simp [lensSpec, h1, h2, h3, h4, h5]
+
+theorem lemma_readChunks_n (cs : Nat) (hcs : 1 ≤ cs) :
+    ∀ (fuel : Nat) (rest : Bytes) (acc : List Bytes), rest.length < fuel →
+      ∃ chunks, readChunks (.n cs) fuel rest acc = some (acc.reverse ++ chunks) ∧
+        chunks.flatten = rest ∧ (∀ c ∈ chunks, c ≠ [] ∧ c.length ≤ cs) ∧
+        chunks.map List.length = lensSpec cs rest.length := by
+  intro fuel
+  induction fuel with
+  | zero => intro rest acc h; omega
+  | succ fuel ih =>
+    intro rest acc h
+    cases rest with
+    | nil => exact ⟨[], by simp [readChunks, readOnce, lensSpec]⟩
+    | cons b bs =>
+      obtain ⟨k, rfl⟩ : ∃ k, cs = k + 1 := ⟨cs - 1, by omega⟩
+      obtain ⟨chunks, h1, h2, h3, h4⟩ :=
+        ih ((b :: bs).drop (k + 1)) ((b :: bs).take (k + 1) :: acc)
+          (by simp only [List.length_drop, List.length_cons] at *; omega)
+      refine ⟨(b :: bs).take (k + 1) :: chunks, ?_, ?_, ?_, ?_⟩
+      · simp only [readChunks, readOnce]
+        simp only [List.take_succ_cons, List.isEmpty_cons, Bool.false_eq_true, if_false]
+        simpa using h1
+      · simp only [List.flatten_cons, h2, List.take_append_drop]
+      · intro c hc
+        rcases List.mem_cons.mp hc with rfl | hc
+        · simp [List.length_take]; omega
+        · exact h3 c hc
+      · rw [lemma_lensSpec_step (k + 1) (b :: bs).length hcs (by simp)]
+        simp only [List.map_cons, h4, List.length_take, List.length_drop]
+
+/-- **Chunks** — reading a file with any chunk size ≥ 1 terminates (the fuel is never
+    exhausted), feeds only non-empty chunks of at most `cs` bytes, of lengths
+    `cs, …, cs, size mod cs`, and their concatenation is the content. -/
+theorem chunks_flatten (content : Bytes) (cs : Nat) (hcs : 1 ≤ cs) :
+    ∃ chunks, fileChunks (.n cs) content = some chunks ∧ chunks.flatten = content ∧
+      (∀ c ∈ chunks, c ≠ [] ∧ c.length ≤ cs) ∧
+      chunks.map List.length = lensSpec cs content.length := by
+  simpa [fileChunks] using lemma_readChunks_n cs hcs (content.length + 1) content [] (by omega)
+
+example : fileChunks (.n 2) [1, 2, 3, 4, 5] = some [[1, 2], [3, 4], [5]] ∧
+    fileChunks (.n 5) [1, 2, 3, 4, 5] = some [[1, 2, 3, 4, 5]] ∧
+    fileChunks (.n 9) [1, 2, 3] = some [[1, 2, 3]] ∧ lensSpec 4096 8193 = [4096, 4096, 1] := by decide
+
+/-- `read_chunksize=None` / `-1`: one read returns everything -/
+theorem chunks_read_all (content : Bytes) :
+    fileChunks .all content = some (if content = [] then [] else [content]) := by
+  cases content with
+  | nil => simp [fileChunks, readChunks, readOnce]
+  | cons b bs => simp [fileChunks, readChunks, readOnce]
+
+/-- outside the property (chunk size ≥ 1): with `read_chunksize=0` the first read is
+    empty, nothing is fed — the code returns the digest of the empty string -/
+theorem chunks_zero (content : Bytes) : fileChunks (.n 0) content = some [] := by
+  simp [fileChunks, readChunks, readOnce]
+
+/-- feeding a lawful hash any chunking of a byte string is feeding it the string -/
+theorem checksum_any_chunking {σ : Type} (upd : σ → Bytes → σ) (law : Lawful upd)
+    (chunks : List Bytes) (s : σ) : chunks.foldl upd s = upd s chunks.flatten := by
+  induction chunks generalizing s with
+  | nil => simp [law.empty]
+  | cons c cs ih => simp [ih, law.append]
+
+/-- **Checksum** — for every content, every chunk size ≥ 1 and every law-abiding hash,
+    compute_file_checksum returns the digest of the whole content (and does return). -/
+theorem checksum_chunk_independent {σ δ : Type} (upd : σ → Bytes → σ) (fin : σ → δ) (init : σ)
+    (law : Lawful upd) (content : Bytes) (cs : Nat) (hcs : 1 ≤ cs) :
+    computeChecksum upd fin init true (some content) (some (cs : Int)) =
+      .ok (fin (upd init content)) := by
+  obtain ⟨chunks, h1, h2, _, _⟩ := chunks_flatten content cs hcs
+  have harg : readArg (some (cs : Int)) = .ok (.n cs) := by
+    have : ¬ ((cs : Int) = -1) := by omega
+    have : ¬ ((cs : Int) < 0) := by omega
+    simp [readArg, *]
+  simp [computeChecksum, harg, h1, checksum_any_chunking upd law, h2]
+
+/-- the same for `read_chunksize=None` and `-1` -/
+theorem checksum_read_all {σ δ : Type} (upd : σ → Bytes → σ) (fin : σ → δ) (init : σ)
+    (law : Lawful upd) (content : Bytes) (cs : Option Int) (hcs : cs = none ∨ cs = some (-1)) :
+    computeChecksum upd fin init true (some content) cs = .ok (fin (upd init content)) := by
+  have harg : readArg cs = .ok .all := by rcases hcs with rfl | rfl <;> simp [readArg]
+  cases content with
+  | nil => simp [computeChecksum, harg, chunks_read_all, law.empty]
+  | cons b bs => simp [computeChecksum, harg, chunks_read_all]
+
+/-- the default chunk size of the signature is in the theorem's range -/
+theorem checksum_default_chunk {σ δ : Type} (upd : σ → Bytes → σ) (fin : σ → δ) (init : σ)
+    (law : Lawful upd) (content : Bytes) :
+    computeChecksum upd fin init true (some content) (some Gen.defaultChunk) =
+      .ok (fin (upd init content)) := by
+  have h : Gen.defaultChunk = ((Gen.defaultChunk.toNat : Nat) : Int) := by decide
+  rw [h]
+  exact checksum_chunk_independent upd fin init law content _ (by decide)
+
+/-- outside the property: `read_chunksize=0` gives the digest of `b''` whatever the file holds;
+    below `-1` the read raises ValueError -/
+theorem checksum_zero_chunk {σ δ : Type} (upd : σ → Bytes → σ) (fin : σ → δ) (init : σ)
+    (content : Bytes) :
+    computeChecksum upd fin init true (some content) (some 0) = .ok (fin init) := by
+  simp [computeChecksum, readArg, chunks_zero]
+
+theorem checksum_bad_chunk {σ δ : Type} (upd : σ → Bytes → σ) (fin : σ → δ) (init : σ)
+    (content : Bytes) (k : Int) (hk : k < -1) :
+    computeChecksum upd fin init true (some content) (some k) = .error .valueError := by
+  have h1 : ¬ (k = -1) := by omega
+  have h2 : k < 0 := by omega
+  simp [computeChecksum, readArg, h1, h2]
+
+/-- non-vacuity of the whole pipeline on the concrete hash: 7 bytes in chunks of 3 -/
+example : computeChecksum toyUpdate id toyInit true (some [9, 8, 7, 6, 5, 4, 3]) (some 3) =
+    .ok (toyUpdate toyInit [9, 8, 7, 6, 5, 4, 3]) :=
+  checksum_chunk_independent toyUpdate id toyInit toy_lawful _ 3 (by decide)
+
+/-! ### last_bytes -/
+
+theorem lemma_two63 : (2 : Int) ^ 63 = 9223372036854775808 := by decide
+
+theorem lemma_seekEnd_ok (size : Nat) (off : Int) (h1 : -9223372036854775808 ≤ off)
+    (h2 : off ≤ 9223372036854775807) (h3 : 0 ≤ (size : Int) + off)
+    (h4 : (size : Int) + off ≤ 9223372036854775807) :
+    seekEnd size off = .ok ((size : Int) + off).toNat := by
+  have h63 := lemma_two63
+  unfold seekEnd
+  rw [if_neg (by omega), if_neg (by omega)]
+
+theorem lemma_seekEnd_einval (size : Nat) (off : Int) (h1 : -9223372036854775808 ≤ off)
+    (h2 : off ≤ 9223372036854775807)
+    (h3 : (size : Int) + off < 0 ∨ (size : Int) + off > 9223372036854775807) :
+    seekEnd size off = .error (.osError (some Gen.EINVAL)) := by
+  have h63 := lemma_two63
+  unfold seekEnd
+  rw [if_neg (by omega), if_pos (by omega)]
+
+theorem lemma_seekEnd_value (size : Nat) (off : Int)
+    (h : off < -9223372036854775808 ∨ off > 9223372036854775807) :
+    seekEnd size off = .error .valueError := by
+  have h63 := lemma_two63
+  unfold seekEnd
+  rw [if_pos (by omega)]
+
+/-- **last_bytes** — for every content (below 2^63 bytes, as every file is) and every
+    `n ≤ 2^63`, the result is `(data, unread)` with `content = pre ++ data`,
+    `|data| = min n size` and `unread = |pre|`.
+    PARTIAL: the property has no bound on `n`; for `n > 2^63` the code raises ValueError
+    (`last_bytes_beyond_off_t`, known finding N6). -/
+theorem last_bytes_spec_partial (content : Bytes) (n : Nat) (hn : n ≤ 2 ^ 63)
+    (hsize : content.length < 2 ^ 63) :
+    ∃ pre data, lastBytes content (n : Int) none = .ok (data, pre.length) ∧
+      content = pre ++ data ∧ data.length = min n content.length := by
+  have h2 : (2 : Nat) ^ 63 = 9223372036854775808 := by decide
+  by_cases hle : n ≤ content.length
+  · refine ⟨content.take (content.length - n), content.drop (content.length - n), ?_, ?_, ?_⟩
+    · have hs := lemma_seekEnd_ok content.length (-(n : Int)) (by omega) (by omega) (by omega) (by omega)
+      have e3 : ((content.length : Int) + -(n : Int)).toNat = content.length - n := by omega
+      have e4 : (content.take (content.length - n)).length = content.length - n := by
+        simp [List.length_take]
+      simp only [lastBytes, hs, e3, e4]
+    · simp
+    · simp [List.length_drop]; omega
+  · refine ⟨[], content, ?_, by simp, by omega⟩
+    have hs := lemma_seekEnd_einval content.length (-(n : Int)) (by omega) (by omega) (by omega)
+    simp [lastBytes, hs]
+
+example : lastBytes [1, 2, 3, 4, 5] 2 none = .ok ([4, 5], 3) ∧
+    lastBytes [1, 2, 3, 4, 5] 5 none = .ok ([1, 2, 3, 4, 5], 0) ∧
+    lastBytes [1, 2, 3, 4, 5] 6 none = .ok ([1, 2, 3, 4, 5], 0) ∧
+    lastBytes [1, 2, 3, 4, 5] 0 none = .ok ([], 5) ∧
+    lastBytes [] (2 ^ 63) none = .ok ([], 0) := by decide
+
+/-- the negative: beyond the off_t range the conversion of `-n` fails before the EINVAL
+    fallback can apply — ValueError instead of the whole file (known finding N6) -/
+theorem last_bytes_beyond_off_t (content : Bytes) (n : Int) (hn : n > 2 ^ 63) :
+    lastBytes content n none = .error .valueError := by
+  have h63 := lemma_two63
+  have hs := lemma_seekEnd_value content.length (-n) (by omega)
+  simp [lastBytes, hs]
+
+/-- a failing first seek: EINVAL (whatever caused it) falls back to the start of the file and
+    returns all of it; every other exception escapes unchanged -/
+theorem last_bytes_seek_fault_iff (content : Bytes) (num : Int) (e : Exc) :
+    lastBytes content num (some e) =
+      if e = .osError (some Gen.EINVAL) then .ok (content, 0) else .error e := by
+  cases e with
+  | osError errno =>
+    by_cases h : errno = some Gen.EINVAL
+    · simp [lastBytes, h]
+    · simp [lastBytes, h]
+  | valueError => simp [lastBytes]
+  | other t => simp [lastBytes]
+  | fuelExhausted => simp [lastBytes]
+
+/-- outside the property: a negative `n` seeks past the end — nothing is read and the
+    "unread" count exceeds the file size -/
+theorem last_bytes_negative (content : Bytes) (k : Nat) (hk : 1 ≤ k)
+    (hsmall : content.length + k < 2 ^ 63) :
+    lastBytes content (-(k : Int)) none = .ok ([], content.length + k) := by
+  have h2 : (2 : Nat) ^ 63 = 9223372036854775808 := by decide
+  have hs := lemma_seekEnd_ok content.length (- -(k : Int)) (by omega) (by omega) (by omega) (by omega)
+  have e3 : ((content.length : Int) + - -(k : Int)).toNat = content.length + k := by omega
+  have e4 : content.drop (content.length + k) = [] := List.drop_eq_nil_of_le (by omega)
+  simp only [lastBytes, hs, e3, e4]
+
+/-! ### ensure_tree / delete_if_exists -/
+
+/-- **ensure_tree** returns iff `os.makedirs` succeeded, or failed with EEXIST and the path
+    is a directory — for every exception and errno … -/
+theorem ensure_tree_iff (o : Except Exc Unit) (isdir : Bool) :
+    ensureTree o isdir = .ok () ↔
+      o = .ok () ∨ (o = .error (.osError (some Gen.EEXIST)) ∧ isdir = true) := by
+  rcases o with e | ⟨⟩
+  · cases e with
+    | osError errno =>
+      by_cases h : errno = some Gen.EEXIST <;> cases isdir <;> simp [ensureTree, h]
+    | valueError => simp [ensureTree]
+    | other t => simp [ensureTree]
+    | fuelExhausted => simp [ensureTree]
+  · simp [ensureTree]
+
+/-- … and in every other case the very exception `os.makedirs` raised propagates -/
+theorem ensure_tree_reraises_unchanged (o : Except Exc Unit) (isdir : Bool) (e : Exc)
+    (h : ensureTree o isdir = .error e) : o = .error e := by
+  rcases o with e' | ⟨⟩
+  · cases e' with
+    | osError errno =>
+      by_cases h' : errno = some Gen.EEXIST <;> cases isdir <;> simp_all [ensureTree]
+    | valueError => simpa [ensureTree] using h
+    | other t => simpa [ensureTree] using h
+    | fuelExhausted => simpa [ensureTree] using h
+  · simp [ensureTree] at h
+
+/-- **delete_if_exists** returns iff `remove` succeeded or failed with ENOENT … -/
+theorem delete_if_exists_iff (o : Except Exc Unit) :
+    deleteIfExists o = .ok () ↔ o = .ok () ∨ o = .error (.osError (some Gen.ENOENT)) := by
+  rcases o with e | ⟨⟩
+  · cases e with
+    | osError errno => by_cases h : errno = some Gen.ENOENT <;> simp [deleteIfExists, h]
+    | valueError => simp [deleteIfExists]
+    | other t => simp [deleteIfExists]
+    | fuelExhausted => simp [deleteIfExists]
+  · simp [deleteIfExists]
+
+/-- … and every other exception propagates unchanged -/
+theorem delete_if_exists_reraises_unchanged (o : Except Exc Unit) (e : Exc)
+    (h : deleteIfExists o = .error e) : o = .error e := by
+  rcases o with e' | ⟨⟩
+  · cases e' with
+    | osError errno => by_cases h' : errno = some Gen.ENOENT <;> simp_all [deleteIfExists]
+    | valueError => simpa [deleteIfExists] using h
+    | other t => simpa [deleteIfExists] using h
+    | fuelExhausted => simpa [deleteIfExists] using h
+  · simp [deleteIfExists] at h
+
+/-- non-vacuity: both sides of both tables are inhabited -/
+example : ensureTree (.error (.osError (some Gen.EEXIST))) true = .ok () ∧
+    ensureTree (.error (.osError (some Gen.EEXIST))) false = .error (.osError (some Gen.EEXIST)) ∧
+    ensureTree (.error (.osError (some 13))) true = .error (.osError (some 13)) ∧
+    ensureTree (.error (.osError none)) true = .error (.osError none) ∧
+    deleteIfExists (.error (.osError (some Gen.ENOENT))) = .ok () ∧
+    deleteIfExists (.error (.osError (some 13))) = .error (.osError (some 13)) ∧
+    deleteIfExists (.error .valueError) = .error .valueError := by decide
+
+/-! ### "succeed when the work is already done", on the one-path file-system model -/
+
+/-- ensure_tree on an existing directory succeeds and changes nothing; whenever it
+    succeeds the path is a directory and a second call succeeds too -/
+theorem ensure_tree_idempotent (st : PathState) :
+    ensureTreeFS .dir = (.ok (), .dir) ∧
+    ((ensureTreeFS st).1 = .ok () →
+      (ensureTreeFS st).2 = .dir ∧ ensureTreeFS (ensureTreeFS st).2 = (.ok (), .dir)) := by
+  cases st <;> simp [ensureTreeFS, osMakedirs, osIsdir, ensureTree]
+
+/-- a file in the way is never mistaken for the directory -/
+theorem ensure_tree_file_in_the_way :
+    ensureTreeFS .file = (.error (.osError (some Gen.EEXIST)), .file) := by
+  simp [ensureTreeFS, osMakedirs, osIsdir, ensureTree]
+
+/-- delete_if_exists on a missing path succeeds; whenever it succeeds the path is gone and a
+    second call succeeds too; a directory is refused (EISDIR is re-raised), not reported gone -/
+theorem delete_if_exists_idempotent (st : PathState) :
+    deleteIfExistsFS .missing = (.ok (), .missing) ∧
+    ((deleteIfExistsFS st).1 = .ok () →
+      (deleteIfExistsFS st).2 = .missing ∧
+        deleteIfExistsFS (deleteIfExistsFS st).2 = (.ok (), .missing)) ∧
+    deleteIfExistsFS .dir = (.error (.osError (some Gen.EISDIR)), .dir) := by
+  have h : Gen.EISDIR ≠ Gen.ENOENT := by decide
+  cases st <;> simp [deleteIfExistsFS, osUnlink, deleteIfExists, h]
+
 end Oslo.File
